@@ -32,7 +32,7 @@ def shards(tier, seed):
     out += [dict(fam='A1', backend='autoref', E=e, tier=tier, seed=seed)
             for e in ((seed % 16), (seed + 7) % 16)] if tier != 'thorough' \
         else []
-    for name in ('B1', 'B2', 'B4', 'B6'):
+    for name in ('B1', 'B2', 'B4', 'B6', 'B7'):
         for ei in range(len(fam.B_SHAPES[name]['E'])):
             out.append(dict(fam=name, backend='cudd', E=ei, tier=tier,
                             seed=seed))
